@@ -133,11 +133,18 @@ func generateMsgIDShim(bdir string) (string, error) {
 	if err != nil {
 		return "", fmt.Errorf("parsing %s: %v", dir, err)
 	}
-	global, field := false, false
+	global, field, genMethod := false, false, false
 	respKind := "" // how AdapterProxy keeps its pending-reply table: map (sync.Map) | array (of sync.Map) | unknown
 	for _, pkg := range pkgs {
 		for _, f := range pkg.Files {
 			for _, d := range f.Decls {
+				if fd, ok := d.(*ast.FuncDecl); ok && fd.Name.Name == "genRequestID" && fd.Recv != nil && len(fd.Recv.List) == 1 && len(fd.Type.Params.List) == 0 {
+					if st, ok := fd.Recv.List[0].Type.(*ast.StarExpr); ok {
+						if id, ok := st.X.(*ast.Ident); ok && id.Name == "ServantProxy" {
+							genMethod = true
+						}
+					}
+				}
 				g, ok := d.(*ast.GenDecl)
 				if !ok {
 					continue
@@ -201,6 +208,15 @@ func generateMsgIDShim(bdir string) (string, error) {
 	pendingSrc := "\n// verifPending counts the entries of the adapter's pending-reply table (0 when the tree keeps it in a\n// form this accessor does not know).\nfunc verifPending(a *AdapterProxy) int {\n" + pending + "}\n"
 	src := "package tars\n\nimport \"sync/atomic\"\n\nvar _ = atomic.StoreInt32\n\n// VerifSetMsgID presets the request id counter (process-wide, or of the given proxies when the\n// tree keeps one per proxy); false when the tree has no counter this accessor knows how to reach.\nfunc VerifSetMsgID(v int32, proxies ...*ServantProxy) bool {\n" + body + "}\n"
 	src += pendingSrc
+	burn := "\treturn false\n"
+	if genMethod {
+		if field {
+			burn = "\tfor _, p := range proxies {\n\t\tfor i := 0; i < n; i++ {\n\t\t\tp.genRequestID()\n\t\t}\n\t}\n\treturn len(proxies) > 0\n"
+		} else {
+			burn = "\tif len(proxies) == 0 {\n\t\treturn false\n\t}\n\tfor i := 0; i < n; i++ {\n\t\tproxies[0].genRequestID()\n\t}\n\treturn true\n"
+		}
+	}
+	src += "\n// VerifBurnIDs draws n request ids through the tree's own generator, as n other requests of the\n// process would (per proxy when the tree keeps one counter per proxy).\nfunc VerifBurnIDs(n int, proxies ...*ServantProxy) bool {\n" + burn + "}\n"
 	out := filepath.Join(bdir, "zz_verif_msgid.go")
 	if err := os.WriteFile(out, []byte(src), 0644); err != nil {
 		return "", err
